@@ -351,6 +351,46 @@ func BoolEdges(v ssa.Value) []CondEdge {
 				if rr.Op == token.NOT {
 					walk(rr, !pol)
 				}
+			case *ssa.Phi:
+				// loop / merge variable: phi(const..., x). If every other incoming value is the constant
+				// false, "phi is true" implies "x is true" (and dually for true constants); only that
+				// direction is recorded.
+				allFalse, allTrue, okc := true, true, true
+				for _, e := range rr.Edges {
+					if e == x {
+						continue
+					}
+					c, isC := e.(*ssa.Const)
+					if !isC || c.Value == nil || c.Value.Kind() != constant.Bool {
+						okc = false
+						break
+					}
+					if constant.BoolVal(c.Value) {
+						allFalse = false
+					} else {
+						allTrue = false
+					}
+				}
+				if okc && (allFalse || allTrue) && !seen[rr] {
+					seen[rr] = true
+					for _, ce := range BoolEdges(rr) {
+						// ce.Val is the phi's value on that edge
+						if allFalse && ce.Val {
+							if pol {
+								out = append(out, CondEdge{ce.E, true})
+							} else {
+								out = append(out, CondEdge{ce.E, false})
+							}
+						}
+						if allTrue && !ce.Val {
+							if pol {
+								out = append(out, CondEdge{ce.E, false})
+							} else {
+								out = append(out, CondEdge{ce.E, true})
+							}
+						}
+					}
+				}
 			case *ssa.BinOp:
 				if rr.Op == token.EQL || rr.Op == token.NEQ {
 					other := rr.Y
